@@ -87,7 +87,10 @@ func clampIdiom(c *eng.Ctx, fn *ssa.Function, min int) {
 
 func runC11(c *eng.Ctx) {
 	p := c.P
+	everyFamilyOfTheSegmentExamined(c)
 	dataLoadContextReducedOnce(c)
+	everyAtomGetsItsOwnSet(c)
+	pageBindingAndSequenceTogether(c)
 	memoryIndexScannedUnderLock(c)
 	compressBufferIsOwned(c)
 
